@@ -10,6 +10,13 @@ separated by `;`, a list group is `nil`, `e` (empty, non-nil) or integers.
    subslice A B ; s   copy A B ; s   values K ; s1 ; s2 …   remove I ; s   chunk N ; s   chunkproc N F ; s
  D = nil | fresh:len:cap | s1:k | s2:k.   The answer shows the result and every argument's memory afterwards.
 
+`@ C14 arena v0 v1 …` : ONE arena with the given initial cells that persists over the lines; every slice
+ argument is a window `off:len:cap` of it (or `nil`), see `C14Arena.lean`:
+   diff D S1 S2 | intersect D S1 S2 | unique D S1 | uniquekey K D S1 | filter D S1 ; acc…
+   diffip S1 S2 | intersectip S1 S2 | uniqueip S1 | uniquekeyip K S1 | filterip S1 ; acc…
+   copy A B S | subslice A B S | remove I S | appendsrc S ; v…
+ answer: the result (`win off len [..]`, `fresh [..]`, `e`, `nil`) `|` the whole arena afterwards.
+
 `@ C14 flex C0` : a FlexSlice with `Values = make([]int, 0, C0)`; ops
    append v… | prepend v… | get I | remove I | pop | shift | sub A B | subset A B | len
    appendn K V0 | prependn K V0   (the K values V0, V0+1, …)     popn K | shiftn K   (K times Pop / Shift:
@@ -19,20 +26,12 @@ separated by `;`, a list group is `nil`, `e` (empty, non-nil) or integers.
  is printed as `| len cap hash(Values) hash(backing array)`.  The bulk ops are instances of the
  list operations `c14_flex_refines` speaks about (`appendn` = one `Append` of K values, `popn` = K `Pop`s).
 -/
-import Golib.Model.C14Flex
+import Golib.Model.C14Arena
 
 namespace Golib.C14
 open Golib.Proto
 
 def showSl (s : Sl) : String := if s.isNil then "nil" else showInts s.xs
-
-/-- split tokens at `;` -/
-def groups (ts : List String) : List (List String) :=
-  ts.foldr (fun t acc =>
-    if t = ";" then [] :: acc
-    else match acc with
-      | [] => [[t]]
-      | g :: gs => (t :: g) :: gs) [[]]
 
 def parseList (g : List String) : Option Sl :=
   match g with
@@ -62,7 +61,6 @@ def showIpRes (s2 : Option (List Int)) : Option IpRes → String
     | some m2 => s!"{showSl r.res} s1={showInts r.mem} s2={showInts m2}"
     | none => s!"{showSl r.res} s1={showInts r.mem}"
 
-def keyFn (k : Int) (v : Int) : Int := Int.tmod v k
 
 def showView (s : List Int) : Option View → String
   | none => "panic"
@@ -265,6 +263,10 @@ def runFlex (c : Bool) : Option Flex → List String → List String
 def runCase (hdr : List String) (ops : List String) : List String :=
   match hdr with
   | ["calls"] => "ok" :: ops.map fun l => call (toks l)
+  | "arena" :: vs =>
+    match ints? vs with
+    | some A => "ok" :: runArena (some A) ops
+    | none => "bad-op" :: ops.map fun _ => "bad-op"
   | ["flex", c] =>
     match c.toNat? with
     | some c => "ok" :: runFlex false (some (mkFlex [] c)) ops
